@@ -973,7 +973,7 @@ async fn main() {
         return;
     }
 
-    let worlds = args.cases(10, 120);
+    let worlds = args.cases(20, 120);
     let per_world = if args.thorough() { 700 } else { 450 };
     for wi in 0..worlds {
         let w = World::build(args.seed, wi).await;
